@@ -43,6 +43,9 @@ impl TagColor for Rgb666 {
 #[derive(Clone, Debug, PartialEq, Eq, Hash)]
 pub enum Stream {
     Seq { start: u32, step: u32, len: Option<u64> },
+    /// k -> hash(seed, k): not periodic in k (a colour shifted by a multiple of 2^16 stream
+    /// positions is visible), at the price of not being injective
+    Hash { seed: u32, len: Option<u64> },
     Explicit(Vec<u32>),
 }
 impl Stream {
@@ -56,12 +59,23 @@ impl Stream {
                 }
                 Some((*start as u64).wrapping_add(k.wrapping_mul(*step as u64)) as u32 & mask)
             }
+            Stream::Hash { seed, len } => {
+                if let Some(l) = len {
+                    if k >= *l {
+                        return None;
+                    }
+                }
+                let mut z = (k ^ ((*seed as u64) << 32 | *seed as u64)).wrapping_add(0x9E37_79B9_7F4A_7C15);
+                z = (z ^ (z >> 30)).wrapping_mul(0xBF58_476D_1CE4_E5B9);
+                z = (z ^ (z >> 27)).wrapping_mul(0x94D0_49BB_1331_11EB);
+                Some(((z ^ (z >> 31)) as u32) & mask)
+            }
             Stream::Explicit(v) => v.get(k as usize).map(|t| *t & mask),
         }
     }
     pub fn len(&self) -> Option<u64> {
         match self {
-            Stream::Seq { len, .. } => *len,
+            Stream::Seq { len, .. } | Stream::Hash { len, .. } => *len,
             Stream::Explicit(v) => Some(v.len() as u64),
         }
     }
@@ -81,8 +95,13 @@ impl<C: TagColor> Iterator for StreamIter<'_, C> {
         self.k += 1;
         Some(C::from_tag(t))
     }
-    // deliberately no nth()/size_hint specialisations: the driver's skipping
-    // is observed as individual pulls
+    /// O(1) skipping (like slices, ranges and most adaptor chains): lets the workload use
+    /// rectangles with billions of clipped points. A driver that skips by calling next()
+    /// in a loop still works, just slowly; the pull counter counts skipped items too.
+    fn nth(&mut self, n: usize) -> Option<C> {
+        self.k = self.k.saturating_add(n as u64);
+        self.next()
+    }
 }
 
 /// A rectangle in embedded-graphics terms.
@@ -209,6 +228,7 @@ pub fn rect_json(r: &Rect) -> J {
 pub fn stream_json(s: &Stream) -> J {
     match s {
         Stream::Seq { start, step, len } => J::obj().with("start", *start).with("step", *step).with("len", *len),
+        Stream::Hash { seed, len } => J::obj().with("hash_seed", *seed).with("len", *len),
         Stream::Explicit(v) => {
             J::obj().with("explicit_len", v.len()).with("head", v.iter().take(16).copied().collect::<Vec<u32>>())
         }
